@@ -342,7 +342,7 @@ func TestVX_daemonChild(t *testing.T) {
 			return ""
 		}
 		good := map[string]string{} // last good content of files that currently show unparsable content
-		isBad := func(c string) bool { return c == "n/a\n" || c == "\n" || c == "" }
+		isBad := func(c string) bool { return c == "n/a\n" || c == "\n" || c == "" || c == "65535\n" || c == "-32768\n" }
 		restore := func() {
 			for p, c := range good {
 				if cur, err := os.ReadFile(p); err == nil && isBad(string(cur)) {
@@ -389,9 +389,10 @@ func TestVX_daemonChild(t *testing.T) {
 					return &env.Result{Val: -1, Err: env.ErrNoEnt(path)}
 				case "ignored":
 					return &env.Result{}
-				case "garbage", "blank", "empty":
+				case "garbage", "blank", "empty", "absurd", "absurd-negative":
 					// the REAL file shows unparsable content for this read; fan2go's own parser decides what happens
-					content := map[string]string{"garbage": "n/a\n", "blank": "\n", "empty": ""}[k]
+					// ("absurd": a well-formed integer far outside the range of the register)
+					content := map[string]string{"garbage": "n/a\n", "blank": "\n", "empty": "", "absurd": "65535\n", "absurd-negative": "-32768\n"}[k]
 					if cur, err := os.ReadFile(path); err == nil && !isBad(string(cur)) {
 						good[path] = string(cur)
 					}
